@@ -329,6 +329,7 @@ def coq_obs(ob):
 
 class C10(Prop):
     pid = "C10"
+    prebuilt = ["Base/Hex.v", "Base/Vec3.v", "Model/OpAddr.v", "Model/FaceGeom.v", "Proofs/OpAddrFrame.v", "Proofs/FaceGeom.v"]
     gen_dependent_files = ["Gen/C10/Tables.v"]
     property_files = ["Properties/C10.v"]
     trusted = [
